@@ -17,8 +17,8 @@ META = {
     "id": "C01",
     "engine": "meta",
     "design_ref": "5/C01",
-    "coq_targets": ["Props/Properties_C01.vo", "Meta/Check.vo"],
-    "coq_files": ["Gen/MetaConsts.v", "Meta/SMap.v", "Meta/Model.v", "Meta/Spec.v", "Meta/Check.v", "Meta/SMapProofs.v",
+    "coq_targets": ["Props/Properties_C01.vo", "Meta/Check.vo", "Meta/CheckFast.vo"],
+    "coq_files": ["Gen/MetaConsts.v", "Meta/SMap.v", "Meta/Model.v", "Meta/Spec.v", "Meta/Check.v", "Meta/CheckFast.v", "Meta/SMapProofs.v",
                   "Meta/StatusProofs.v", "Meta/WfProofs.v", "Meta/ViewProofs.v", "Meta/C01Proofs.v", "Props/Properties_C01.v"],
     "theorems": ["C01_inv_reachable", "C01_exists_status_partial", "C01_exists_status_refuted", "C01_get_status_partial",
                  "C01_ec_part_partial", "C01_search_partial", "C01_is_locked", "C01_expired_iter_exact", "C01_views_agree_partial"],
@@ -53,8 +53,12 @@ META = {
 
 
 def tiers(ctx):
+    # (profile, histories, max length, observe every k-th operation).  Quick tier: ~32 histories /
+    # ~550 fully observed steps = ~20 CPU-seconds of harness + model evaluation on an idle machine
+    # (the first version ran 52 longer histories with a digest that cost 50 ms per step and took
+    # 9-15 minutes on the loaded machine).
     if ctx.tier == "quick":
-        return [("full", 36, 26, 1), ("s1", 6, 20, 1), ("s1c", 10, 24, 1)]
+        return [("full", 20, 22, 1), ("s1", 4, 16, 1), ("s1c", 8, 20, 1)]
     return [("full", 500, 40, 1), ("s1", 60, 30, 1), ("s1c", 140, 36, 1)]
 
 
@@ -67,10 +71,20 @@ def summarize(h, k):
 
 def run_family(ctx, pid, sections, classify):
     """Shared driver of C01/C02. `classify(ref_fail, masked_fail, section) -> key or None`."""
+    import time
+    ph, t0 = {}, time.time()
+
+    def mark(name):
+        nonlocal t0
+        ph[name] = round(time.time() - t0, 1)
+        t0 = time.time()
+    ctx.cov["phase_wall_s"] = ph
     binp = ctx.go_build()
+    mark("go_build")
     consts, _ = M.gen_consts(ctx, binp)
     ctx.prove()
     model = ctx.model_ready(M.MODEL_VO)
+    mark("coq_make+assumptions")
     if not model:
         ctx.tie(False)
         return
@@ -85,7 +99,9 @@ def run_family(ctx, pid, sections, classify):
             for h in part:
                 h["profile"] = profile
             hs += part
+    mark("harness")
     res = M.evaluate(ctx, hs)
+    mark("coq_eval")
     if res is None:
         ctx.tie(False)
         return
